@@ -190,6 +190,19 @@ CLAIMED = {
          'and is only covered by the adaptive comparison); D36 / D50 (loud) matched by class.',
     technique='TLA+ augmented-ODE spec (TLC computes exact iterates), exact replay through run(), adaptive comparison with the explicit chain',
     ref='6/C11'),
+
+ 'C05': dict(
+    text='spec/Expr.tla gives expression trees an exact rational value (Eval) and renders them as equation text in four spellings (^ '
+         'or **, spacing, minimal / redundant parentheses) and with commuted operands; spec/ExprCases.tla enumerates the trees (all of '
+         'depth <= 1, repeated sub-expressions, precedence-sensitive depth 2; all depth 2 in thorough) and TLC checks CommuteInvariant / '
+         'NegTwice. Every rendering, under six variable-name sets (prefix/suffix pairs, names resembling generated labels such as x_v1, '
+         'weight, r_in0), is evaluated directly (ComputeGraph.eval_node) and through the generated function of a one-equation operator '
+         'in both derivative notations; both must equal the exact value. Calls (sin, cos, tanh, exp, sigmoid) against the NumPy '
+         'meaning; index helpers against NumPy indexing.',
+    note='Loud findings D29 (call with a variable-free argument) and D53 (product/quotient of sums sharing a variable left unevaluated) '
+         'are recognised by their exact failure signature; any wrong *value* is always a violation.',
+    technique='TLA+ expression semantics + renderer (TLC enumeration), replay of every spelling through both evaluation paths',
+    ref='6/C05'),
 }
 
 NOT_YET = 'check not built yet in this round (planned in DESIGN.md section 6); not claimed'
